@@ -607,6 +607,12 @@ func runOracle(cf *hxlib.CommonFlags, o *hxlib.Out) {
 			}
 		}
 		or.histOp(j, k)
+		// histories with failing compilations / mixed entry points
+		if (j.Gen != nil || j.Family == "library" || strings.Contains(j.Src, "import")) && o1.Ms < 400 {
+			or.failHistories(j, o1, !quick || j.Family == "library" || (j.Gen != nil && j.Index%4 == 0))
+		} else if o1.Ms < 60 && j.Index%5 == 0 {
+			or.failHistories(j, o1, false)
+		}
 		// (ii) fresh instances
 		sig = "c08-fresh-instance"
 		nf := f
